@@ -610,7 +610,13 @@ func init() {
 			}
 			cases = append(cases, pc)
 		}
-		rep.Rule = "programs from the clean pool with labels: (a) systematic `ORG o / MOV r,after / K / after: / DW after,first,$ / MOV r,after / MOV r,$ / Jcc after / ...` for seeded statement kinds K of every pool family, both modes, origins {none,0,0x7c00,0xc200}; " +
+		// 32-bit programs whose addresses lie around and above 2^31 (labels there are negative as int32)
+		for i := 0; i < nrand/12; i++ {
+			pc := c03Random(r, 32, []int64{0x80000000, 0x7fffff00, 0xfffff000, 0x7ffffff0}[i%4], true)
+			pc.Cell_ = "high-origin " + pc.Cell_
+			cases = append(cases, pc)
+		}
+		rep.Rule = "32-bit random programs at origins 0x7fffff00, 0x7ffffff0, 0x80000000, 0xfffff000; programs from the clean pool with labels: (a) systematic `ORG o / MOV r,after / K / after: / DW after,first,$ / MOV r,after / MOV r,$ / Jcc after / ...` for seeded statement kinds K of every pool family, both modes, origins {none,0,0x7c00,0xc200}; " +
 			"(b) random programs of 5-40 statements (instructions of every size class, DB/DW/DD, RESB, ALIGNB, RESB addr-$) with labels at random positions referenced before and after definition, every fourth with two labels whose names differ only in `.`/`$` against `_`; " +
 			"oracle: the walker recovers every statement's true offset from the output and every embedded label/$ value and branch target must equal origin+offset; non-trivial = accepted and walked; distinct = (generator, mode, origin, statement kind / size bucket) cells"
 		outs := RunCases(env, cases)
